@@ -27,7 +27,7 @@ FLOOR = {"quick": 300, "thorough": 5000}
 TIMEOUT = {"quick": 1500, "thorough": 5 * 3600}
 
 RULES = ["reemit_Neg", "reemit_Abs", "reemit_Relu", "reemit_Tanh", "swap_Add", "swap_Mul", "neg_abs", "neg_abs_fn", "neg_and_abs", "transpose3",
-         "abs_plus_zero_init", "reemit_Neg_keep", "neg_abs_keep", "identity_identity", "mul_sub", "mul_sub_fn", "mul_sub", "mul_sub_fn", "neg_abs", "neg_abs_fn"]
+         "abs_plus_zero_init", "reemit_Neg_keep", "neg_abs_keep", "identity_identity", "mul_sub", "mul_sub_fn", "mul_sub", "mul_sub_fn", "neg_abs", "neg_abs_fn", "split_first", "split_first"]
 
 
 def make_rule(name):
@@ -54,6 +54,18 @@ def make_rule(name):
         return pattern.RewriteRule(lambda op, x: op.Neg(op.Abs(x)), lambda op, x: op.Neg(op.Abs(x)), **kw)
     if name == "neg_abs_fn":
         return pattern.RewriteRule(lambda op, x: op.Neg(op.Abs(x)), lambda op, x: op.NegAbs(x, _domain="verif.fn"), as_function=True, **kw)
+    if name == "split_first":
+        # a multi-output node of which the pattern returns only the FIRST output: the match is replaceable only if the other output
+        # has no consumer left outside the match
+        def split_pat(op, x, axis, n):
+            a, _b = op.Split(x, axis=axis, num_outputs=n, _outputs=2)
+            return a
+
+        def split_rep(op, x, axis, n):
+            a, _b = op.Split(x, axis=axis, num_outputs=n, _outputs=2)
+            return a
+
+        return pattern.RewriteRule(split_pat, split_rep, **kw)
     if name == "mul_sub":  # three pattern variables (may be bound to the same value), two nodes
         return pattern.RewriteRule(lambda op, x, y, z: op.Sub(op.Mul(x, y), z), lambda op, x, y, z: op.Sub(op.Mul(y, x), z), **kw)
     if name == "mul_sub_fn":
@@ -88,7 +100,7 @@ def touched_ops(rule):
     base = rule[:-5] if rule.endswith("_keep") else rule
     if base.startswith(("reemit_", "swap_")):
         return {base.split("_")[1]}
-    return {"mul_sub": {"Mul", "Sub"}, "mul_sub_fn": {"Mul", "Sub", "MulSub"}, "neg_abs": {"Neg", "Abs"}, "neg_abs_fn": {"Neg", "Abs", "NegAbs"}, "neg_and_abs": {"Neg", "Abs"}, "transpose3": {"Transpose"},
+    return {"split_first": {"Split"}, "mul_sub": {"Mul", "Sub"}, "mul_sub_fn": {"Mul", "Sub", "MulSub"}, "neg_abs": {"Neg", "Abs"}, "neg_abs_fn": {"Neg", "Abs", "NegAbs"}, "neg_and_abs": {"Neg", "Abs"}, "transpose3": {"Transpose"},
             "abs_plus_zero_init": {"Abs", "Add"}, "identity_identity": {"Identity"}}[base]
 
 
@@ -268,7 +280,7 @@ def _plant(g):
     v = g.pick_val(lambda v: v.dtype in (modelgen.F32, modelgen.F64, modelgen.I64))
     if v is None:
         return
-    k = g.pick(["neg_abs", "neg_and_abs", "add", "mul", "transpose", "idid", "chain", "mul_sub", "mul_sub", "in_body", "in_body", "in_body"])
+    k = g.pick(["neg_abs", "neg_and_abs", "add", "mul", "transpose", "idid", "chain", "mul_sub", "mul_sub", "in_body", "in_body", "in_body", "split2", "split2"])
     g.features.add("planted:c07:" + k)
     if k == "mul_sub":
         w, u = g._second(v), g._second(v)
@@ -282,6 +294,21 @@ def _plant(g):
         return
     if k == "in_body":
         return _plant_in_body(g, v)
+    if k == "split2":
+        w = g.pick_val(lambda t: t.rank >= 1 and t.shape[0] >= 2 and t.dtype in (modelgen.F32, modelgen.F64, modelgen.I64))
+        if w is None or g.opset < 18:
+            return
+        r = g.emit("Split", [w], n_out=2, axis=0, num_outputs=2)
+        if not r:
+            return
+        use = g.pick(["first", "both", "both", "second", "none"])
+        g.features.add("planted:c07:split2:" + use)
+        outs = []
+        if use in ("first", "both"):
+            outs += g.emit("Neg", [r[0]]) or []
+        if use in ("second", "both"):
+            outs += g.emit("Abs", [r[1]]) or []
+        return outs or list(r)
     if k == "neg_abs":
         a = g.emit("Abs", [v])
         if a:
@@ -412,6 +439,11 @@ def replay(case):
     return verdicts
 
 
+def _has_short_split(case):
+    m = optcommon.model_from_json(case["model"])
+    return any(n.op_type == "Split" and len(n.output) < 2 for _, nodes, _, _ in graphs_of(m) for n in nodes)
+
+
 REGIONS = {
     # a replacement that creates an initializer with a fixed name, applied more than once in one graph: the second registration is
     # skipped/renamed inconsistently and the new node refers to an undefined '<name>_1'
@@ -419,4 +451,7 @@ REGIONS = {
     # patterns with several output nodes: the replacement is inserted at the position of ONE of them (documented TODO in
     # _apply_to_graph_or_function), consumers that come earlier in the node list then use a value before its definition
     "multi_output_pattern_insertion_point": lambda c: c.get("rule") in ("neg_and_abs", "neg_and_abs_keep"),
+    # a pattern node declared with 2 outputs against a host node of the same op with fewer outputs: the matcher reports a match without
+    # bindings for the missing output (see C06) and applying the replacement raises
+    "pattern_node_more_outputs_than_host": lambda c: c.get("rule") == "split_first" and _has_short_split(c),
 }
